@@ -424,7 +424,27 @@ pub fn run_path(s: &Suite, hist: &[u16], parent_outs_hash: Option<u64>, verbose:
                         let before = model.map.get(key).map(|g| (g.ts, g.expiry));
                         now.is_some() && now == before
                     });
-                if unchanged {
+                // a new generation exists but its timestamp was not drawn from the version
+                // clock (no note): judge the timestamp the generation really carries
+                let carried = if !unchanged && m.contains("none was reported by the hook") {
+                    op_key(&op).and_then(|k| {
+                        let key = &s.tables.keys[k as usize];
+                        let d = sut.store().verif_dump();
+                        d.records.iter().find(|r| &r.key == key).map(|r| r.timestamp)
+                    })
+                } else {
+                    None
+                };
+                if let Some(ts_carried) = carried.filter(|t| *t != 0) {
+                    let out_again = po.outs.last().cloned().unwrap_or(Out::Unit);
+                    match model.step(&s.tables, &op, &out_again, ts_carried) {
+                        Err(e2) if !e2.starts_with("MACHINERY") => po.violation = Some(format!("{e2} (the timestamp was not drawn from the version clock; judged on the timestamp the new generation carries)")),
+                        Err(e2) => po.machinery = Some(e2),
+                        // every constraint holds for the carried timestamp: nothing to report
+                        // (the note may simply be missing); the history goes on with it
+                        Ok(()) => {}
+                    }
+                } else if unchanged {
                     po.violation = Some(format!(
                         "C01: {} returned {} (accepted) but no new generation of the key was published: its timestamp and expiry are what they were before the call",
                         s.tables.describe(&op),
